@@ -55,6 +55,9 @@ def run(ctx):
     # the task-set overloads of when_all (TaskSet / ConcurrentTaskSet x iterator / variadic) + when_any, inputs OUTSIDE the
     # set (manual queue) and INSIDE it (real pool), is_ready() sampled right after taskSet.wait() returned: the random
     # programs reach these overloads only now and then and never look at the result after the wait
+    # + the task-set overloads of then() (thents / thents6 / thentsq): then(f, TaskSet | ConcurrentTaskSet) on an antecedent
+    # that is NOT ready while a thread gets / waits on the (deferred, inline-runnable) continuation before the antecedent
+    # completed - the continuation body records parent.is_ready() (`tbegin`), which the trace spec requires to be 1
     fixedprogs += [fc.gen.MC[k] for k in fc.gen.TS_PROGS]
     nq, npool = (200, 200) if thorough else (6, 6)
     progs_q = [fc.gen.random_program(rng, 'q') for _ in range(nq)]
